@@ -45,6 +45,11 @@ CHECKS.update({
         text="Seeded search over schedules and activity scripts with two complete litep2p nodes (real TransportService/KeepAliveTracker, ConnectionHandle/Permit, TcpConnection, ProtocolSet, optional ping and identify) on a simulated network and a single virtual clock that drives both std::time::Instant and tokio timers. Only node 1 has the keep-alive timeout T under test, so the expected close instant is computed exactly from the recorded history: E = max over protocols of (last substream request/receipt or connection notification + T) and the release of the last keep-alive substream or pending open. Oracle: the connection closes no earlier than E - 3 ms, no later than E + 150 ms, never while a keep-alive substream or pending open is held; ping/identify traffic does not prolong it; one or two overlapping connections.", ref="DESIGN.md §5 C09"),
 })
 
+CHECKS.update({
+    "C16": dict(engine="nodesim", technique="deterministic simulation: seeded schedules + fault injection over 3-6 whole litep2p nodes running Kademlia, with ghost peers; query ledger oracle",
+        text="Seeded search over schedules, fault plans and user operations with 3-6 complete litep2p nodes running the real Kademlia protocol (event loop, QueryEngine, routing table, store, executor) over the real transport stack on a simulated network and clock, bootstrapped into a line, star or clique, plus ghost peers whose address refuses, black-holes, cannot be dialed by any enabled transport, or is missing. Oracle: ledger keyed by query id - exactly one terminal event per issued query by the horizon, of the kind matching the operation; partial results only before it and only for get_record; no unknown ids; PutRecordSuccess/AddProviderSuccess only if enough distinct nodes really received the record/provider (exact required count for put_record_to_peers, at least one for the closest-peers variants), asserted in runs without connection-killing faults.", ref="DESIGN.md §5 C16"),
+})
+
 NOT_BUILT = {
 }
 
